@@ -134,6 +134,9 @@ MOD_PROGRAMS = [
     ("lam1", "⁽›", ""), ("lam2", "‡›‹", ""), ("lam3", "≬›‹›", ""),
     ("lam1_call", "⁽›†", "i"), ("map_lambda", "ƛ›;", "l"), ("filter_lambda", "'›;", "l"), ("sort_lambda", "µN;", "l"),
     ("v_on_lambda", "vλ›;", "l"), ("fold_lambda", "ƒλ+;", "l"),
+    # modifiers applied to niladic elements: the wrapped lambda must not take anything from the caller's stack
+    ("sz_nilad", "ß₀", "i"), ("amp_nilad", "&₀", ""), ("both_nilads", "₌₀₁", ""), ("lam1_nilad_call", "⁽₀†", "i"), ("pair_nilad_monad", "₍₀›", "i"), ("both_nilad_context", "₌n¥", ""), ("sz_nilad_string", "ßð", "i"),
+    ("lam2_nilads_call", "‡₀₁†", "i"), ("tilde_nilad", "~₀", ""),
 ]
 
 
